@@ -36,6 +36,14 @@ def templates():
     t("display_prefix", 'let a = display(1, "v=");', [P])
     t("debug_direct", "let a = debug(1);", [D])
     t("debug_in_lambda", "let f = (x: str) -> {debug(x)};\nlet a = f(\"s\");", [D])
+    # every arity and several argument types of the two printing builtins (display is instantiated per type)
+    t("debug_label", 'let a = debug(1, "lbl=");', [D])
+    t("debug_label_map", 'let a = [1, 2].map((x: int) -> {debug(x, "e=")}).to_array();', [D, D])
+    t("debug_label_mixed", 'let a = debug(1, "d=");\nlet b = display(2, "p=");\nlet c = debug("s");\nlet d = debug([1], "q");', [D, P, D, D])
+    t("debug_types", 'struct Pt(x: int, y: str)\nlet a = debug(Pt(1, "s"), "pt");\nlet b = debug([1.5, 2.5]);\nlet c = debug(some(3), "o");', [D, D, D])
+    t("display_types", 'let a = display("s", ">");\nlet b = display([1, 2]);\nlet c = display(1.5, "f=");\nlet d = display(true);\nlet e = display((1, "x"), "t");', [P, P, P, P, P])
+    t("display_method", 'let a = 1.display("m=");\nlet b = 2.debug("n=");\nlet c = "z".debug();', [P, D, D])
+    t("debug_default", 'fn d(x: int ?= debug(5, "dflt"))->int { x }\nlet a = d() + d();', [D])
     t("mixed_order", "let a = display(1);\nlet b = debug(2);\nlet c = now();\nlet d = display(3);", [P, D, N, P])
     t("mixed_order2", "let c = now();\nlet r = random();\nlet a = display(1);", [N, R, P])
     t("now_direct", "let a = now();", [N])
